@@ -538,7 +538,7 @@ def stops_of_run(sb, container, variant, n, f, start, families, tier_offsets, se
             # (the whole run if it executes no trial)
             marks = [ev['n'] for ev in log if ev['k'] == 'mark']
             last = marks[0] if marks else max([p[0] for p in pts] or [0])
-            pts = [p for p in pts if p[0] <= last]
+            pts = [p for p in pts if p[0] <= last or p[3] == 'mark']      # ... and every trial boundary
         for (n_ord, phase, off, kind) in pts:
             live.append(('interrupt', E.Injection(n_ord, phase, off, KeyboardInterrupt), kind))
     for stop, inj, kind in live:
@@ -548,7 +548,9 @@ def stops_of_run(sb, container, variant, n, f, start, families, tier_offsets, se
         d = sb.fresh(image0)
         rec = execute(d, container, variant, n, f, serial, inject=inj)
         image = E.read_image(d)
-        sb.drop(d)
+        in_place = bool(tier_offsets.get('in_place'))
+        if not in_place:
+            sb.drop(d)
         if rec['fired'] is None:
             raise RuntimeError('injection point %s was not reached' % inj.as_dict())
         if stop == 'between-trials':
@@ -559,9 +561,16 @@ def stops_of_run(sb, container, variant, n, f, start, families, tier_offsets, se
         cum = cum0
         for _i, data in sv:
             cum = extend_cum(cum, data, container)
-        yield {'stop': stop, 'where': dict(inj.as_dict(), event=kind, first_run_raised=rec['raised']),
-               'idx': idx, 'image': image, 'b0': latest_save(sv, len(rec['log']) + 1, b0_0), 'cum': cum,
-               'lineage': merge_lineage(lineage0, rec['mem'])}
+        st = {'stop': stop, 'where': dict(inj.as_dict(), event=kind, first_run_raised=rec['raised']),
+              'idx': idx, 'image': image, 'b0': latest_save(sv, len(rec['log']) + 1, b0_0), 'cum': cum,
+              'lineage': merge_lineage(lineage0, rec['mem'])}
+        if in_place:
+            # the restart happens in this very directory, in this very process, on the untouched files:
+            # the "same Python session" situation (module-level state of the library survives the stop)
+            st['dir'] = d
+        yield st
+        if in_place:
+            sb.drop(d)
 
 
 def _open_sessions(log):
@@ -595,10 +604,11 @@ def merge_lineage(old, mem):
 def restart_and_judge(sb, container, variant2, n2, f, state, serial):
     """Restart on the stop state; returns (violations [(kind, exc, detail)], outcome digest, record)."""
     out_rel = out_name(container)
-    d = sb.fresh(state['image'])
+    d = state.get('dir') or sb.fresh(state['image'])
     rec = execute(d, container, variant2, n2, f, serial, observe=False)
     image = E.read_image(d)
-    sb.drop(d)
+    if 'dir' not in state:
+        sb.drop(d)
     must_keep = state.get('cum')
     if must_keep is None:
         must_keep = parse_save(state['b0'], container) or {}
@@ -691,7 +701,14 @@ def planted_file(sb, container, foreign_variant, n_p, f):
     sb.drop(d)
     if rec['raised'] is not None:
         raise RuntimeError('could not produce the foreign file: %s' % rec['raised'])
-    recs = ref_load(image[out_name(container)], container)
+    data = image.get(out_name(container))
+    got = parse_save(data, container)
+    if got is None or any(st['n_runs'] != n_p or any(len(st[k]) != n_p for k in LISTS) for st in got.values()) \
+            or sorted(got) != sorted(idents_of(foreign_variant)):
+        # an uninterrupted run from scratch returned normally without leaving n_p trials in the file
+        return None, {'requested': n_p, 'spec': foreign_variant, 'file_bytes': None if data is None else len(data),
+                      'in_file': None if got is None else {i: st['n_runs'] for i, st in got.items()}}
+    recs = ref_load(data, container)
     mine = set(idents_of('base'))
     legit = {}
     for r in recs:
@@ -818,7 +835,7 @@ def _judge_stop(acc, sb, case, st, variant2, n2, f, serial, depth, chain=None):
         if nontrivial and (m == 1 or int(dg, 16) % m == case.get('shard', 0)):
             acc.states.add((st.get('start'), dg))
     ck = (dg, variant2, n2, f)
-    if ck in acc.cache:
+    if ck in acc.cache and 'dir' not in st:       # an in-place restart also depends on the process state
         acc.res['extra']['restarts_reused_same_state'] += 1
         viol, outcome = acc.cache[ck]
     else:
@@ -916,13 +933,15 @@ def _eval_depth2(case, sb):
 
 
 RESUME_OFFSETS = {'kill': 'classes', 'interrupt': {'json': 'classes', 'gz': 'classes'}, 'json_depth': 2,
-                  'load_phase_only': True}
+                  'load_phase_only': True, 'in_place': True}
 
 
 def _eval_resume(case, sb):
     """run 1 completes; run 2 (a resume on the existing file) is interrupted at every interceptable point of
-    its load phase - before/after every open of the results file and at its first trial boundary; run 3 goes
-    to the same target and is judged against everything any completed save of runs 1 and 2 has held."""
+    its load phase - before/after every open of the results file - and stopped (KeyboardInterrupt, and a stop
+    no handler sees) at every trial boundary; run 3 happens in the same process, in the same directory, on
+    the files exactly as run 2 left them, goes to the same target and is judged against everything any
+    completed save of runs 1 and 2 has held."""
     acc = _Acc(case)
     container, f = case['container'], case['save_frequency']
     out_rel = out_name(container)
@@ -942,8 +961,8 @@ def _eval_resume(case, sb):
         for spec2 in case['spec2']:
             sub = dict(case, n1=n1)
             chain = {'stop': 'none (run 1 completed %d trials)' % n1}
-            for st2 in stops_of_run(sb, container, spec2, n2, f, start, {'interrupt'}, RESUME_OFFSETS,
-                                    serial=100000):
+            for st2 in stops_of_run(sb, container, spec2, n2, f, start, {'interrupt', 'between'},
+                                    RESUME_OFFSETS, serial=100000):
                 if 'probe_raised' in st2:
                     acc.add('restart-raises', 'none', st2['probe_raised'][0], f,
                             {'message': st2['probe_raised'][1]})
@@ -960,6 +979,12 @@ def _eval_plant(case, sb):
     for f in case['save_frequency']:
         for (n_p, n2) in ((2, 3), (3, 3), (1, 4)):
             data, lineage = planted_file(sb, container, foreign, n_p, f)
+            if data is None:
+                acc.res['evals'] += 1
+                acc.add('length-mismatch', 'none', None, f,
+                        dict(lineage, message='uninterrupted run from scratch returned normally but the file '
+                                              'does not hold the requested trials'))
+                continue
             st = {'stop': 'between-trials', 'where': {'planted': foreign, 'planted_trials': n_p},
                   'image': {out_name(container): data}, 'b0': data, 'lineage': lineage}
             for variant2 in ('same', 'rate'):
